@@ -43,6 +43,23 @@ PROPS['C20'] = dict(level='proof', functions=['sempler.noise.normal', 'sempler.n
 PROPS['C12'] = dict(level='proof', functions=[G + 'intervention_targets'], bounded=[], design='DESIGN.md §4 C12', technique=TECH,
                     note=NOTE + ' A-RNG: integers(lo,hi,K) in [lo,hi); choice(a,s,replace=False) returns s entries at distinct positions and raises ValueError iff s > len(a). L-CARD instances for set difference / interval / distinct lists. That every size and variable occurs over seeds is numpy\'s law (assumed).',
                     claim='intervention_targets is proved (all p>=1, K>=0, sizes/ranges, both replace modes, all seeds) to return exactly K lists of distinct variables of 0..p-1 with length equal to the size or inside the inclusive range, pairwise disjoint without replacement, and to raise ValueError exactly when the tuple has length != 2, max size > p, or max size x K > p without replacement - in particular the inner choice() can never fail (loop invariant card(remaining) >= max x (K-i)).')
+TECH_B = ('bounded stand-in (exhaustive enumeration against an independent brute-force oracle, never counted as proved) '
+          '+ contract-based deductive verification of the first-order building blocks')
+NOTE_B = ('The core claim rests on graph theorems (Chickering labelling, Dor-Tarsi, Meek completeness) that are out of reach of first-order VCs here; '
+          'it is decided only on the enumerated domain (bound stated in the evidence). Oracles in vkb/oracles.py share no code with sempler.')
+PROPS['C07'] = dict(level='exploration', functions=[], bounded=['vkb.c07'], design='DESIGN.md §4 C07', technique=TECH_B, note=NOTE_B,
+                    claim='mec / all_dags / is_consistent_extension / chain shortcut are compared with a brute-force enumeration of Markov equivalence classes and consistent extensions on every DAG and every PDAG with acyclic directed part up to the stated bound (quick p<=4, thorough p<=5, chains to 12), incl. signed-weight inputs.')
+PROPS['C08'] = dict(level='exploration', functions=[], bounded=['vkb.c08'], design='DESIGN.md §4 C08', technique=TECH_B, note=NOTE_B,
+                    claim='dag_to_cpdag / pdag_to_cpdag are compared entry-wise with the essential graph computed by brute force for every DAG / PDAG up to the bound; ValueError iff no extension exists.')
+PROPS['C09'] = dict(level='exploration', functions=[], bounded=['vkb.c09'], design='DESIGN.md §4 C09', technique=TECH_B, note=NOTE_B,
+                    claim='pdag_to_dag / has_consistent_extension / maximally_orient are compared with the brute-force extension set of every PDAG up to the bound (soundness, completeness, unchanged extension set, inputs untouched).')
+PROPS['C10'] = dict(level='exploration', functions=[], bounded=['vkb.c10'], design='DESIGN.md §4 C10', technique=TECH_B, note=NOTE_B,
+                    claim='imec / dag_to_icpdag / pdag_to_icpdag / chain shortcut are compared with the brute-force interventional class for every DAG x target set up to the bound.')
+PROPS['C15']['bounded'] = ['vkb.c15']
+PROPS['C15']['note'] += ' semi_directed_paths / separates / chain_component / ancestors / descendants / transitive_closure are decided by the bounded stand-in only (recursive / explicit-stack code).'
+PROPS['C18'] = dict(level='exploration', functions=[], bounded=['vkb.c18'], design='DESIGN.md §4 C18', technique=TECH_B,
+                    note='Greedy insertion always reaching the requested count needs a graph lemma that is not mechanised: bounded only.',
+                    claim='add_edges / remove_edges are run on every DAG up to the bound (binary and signed), every count from 0 to one past the feasible maximum and several seeds: exact edge counts, sub/supergraph, acyclicity, ValueError exactly when infeasible, determinism, input untouched.')
 NOT_YET = {}
 
 GLOBAL_ASSUMPTIONS = [
